@@ -480,9 +480,9 @@ Definition gc_step (e : ent) (r : list ent) (w : world) : world := despawn e (w 
 Definition rn_postpone (t : ent) (su : setup) (cl : cleanup) (w : world) : world :=
   emit (EvExit t (setup_ticket su)) (emit (EvPost t (setup_ticket su)) (w <| buffer ::= fun b => b ++ [mkBuf t su cl] |>)).
 Definition rn_take (t : ent) (su : setup) (w : world) : world :=
-  emit (EvStart t (setup_ticket su)) (w <| storage := aset t false (storage w) |> <| counter ::= N.succ |>).
+  emit (EvStart t (setup_ticket su)) (w <| storage := aupd t false (storage w) |> <| counter ::= N.succ |>).
 Definition rn_reinsert (t : ent) (k : N) (w : world) : world :=
-  emit (EvEnd t k true) (w <| storage := aset t true (storage w) |>).
+  emit (EvEnd t k true) (w <| storage := aupd t true (storage w) |>).
 Definition rn_dropped (t : ent) (k : N) (w : world) : world := emit (EvEnd t k false) (drop_callback t w).
 Definition rn_despawn_missing (t : ent) (k : N) (w : world) : world := emit (EvEnd t k false) (despawn t (drop_callback t w)).
 Definition rn_abort_cleanup (su : setup) (cl : cleanup) (w : world) : world :=
@@ -491,11 +491,11 @@ Definition rn_discard_pop (b : buffered) (rest : list buffered) (w : world) : wo
   emit (EvDiscard (b_sys b) (setup_ticket (b_setup b))) (w <| buffer := rest |>).
 
 Definition cb_bump (t : ent) (cb : cbrec) (once_taken : bool) (w : world) : world :=
-  w <| cbs := aset t (mkCb (cb_once cb) (cb_runno cb + 1) (cb_captured cb + 1) once_taken true) (cbs w) |>.
+  w <| cbs := aupd t (mkCb (cb_once cb) (cb_runno cb + 1) (cb_captured cb + 1) once_taken true) (cbs w) |>.
 (* the taken inner closure of a `once` reactor (and its canary) is dropped when the wrapper returns *)
 Definition once_finish (t : ent) (tk : token) (w : world) : world :=
   match alookup t (cbs w) with
-  | Some cb' => emit (EvDropSys t) (w <| cbs := aset t (mkCb (Some tk) (cb_runno cb') (cb_captured cb') true false) (cbs w) |>)
+  | Some cb' => emit (EvDropSys t) (w <| cbs := aupd t (mkCb (Some tk) (cb_runno cb') (cb_captured cb') true false) (cbs w) |>)
   | None => w end.
 (* first statements of every harness body: sample all readers, log the run; an X body bumps its entity's local data *)
 Definition body_begin (sd : sysdecl) (t : ent) (runno captured : N) (w : world) : world :=
